@@ -1,5 +1,6 @@
 import MakoModel.ModFile.LemmasProps
 import MakoModel.ModFile.LemmasConc
+import MakoModel.ModFile.LemmasCC2
 /-!
 # C15 - module files are regenerated when stale and never observed half-written
 
@@ -154,6 +155,106 @@ theorem concurrent_loader_sees_complete (fs0 : FS) (news : Nat → Content) (now
 example : (runSched (FS.empty, fun q => writerProc q ⟨1, magicNumber, true, q, 1, 0⟩ 5
       (if q = 2 then [.ok, .ok, .raise] else if q = 1 then [.ok, .short] else []) (if q < 3 then none else some 0))
     [0, 1, 2, 1, 1, 0, 2, 2, 1, 1, 0, 0, 3, 0]).1 .mod = some ⟨⟨1, magicNumber, true, 0, 1, 0⟩, 5⟩ := by decide
+
+/-! ## concurrent constructs (whole `Template(...)` constructions interleaved step by step) -/
+
+/-- `m` processes construct the same Template (process `p` with any plan of raising / short-writing
+primitives; a process that is not scheduled any more has died), interleaved by **any** schedule in which the
+source may also be modified and the clock moved at any point.  In every reachable state:
+* the module path holds what it held initially, or a complete module of the current generator version,
+  generated from this template file, from a version of the source that was current at some point of the run;
+* so a loader at any point finds no file or a complete module;
+* every construct that has finished serving serves a complete module of the current generator version for
+  this template file - such a module of the run, or the initial one;
+* a construct without injected faults never fails. -/
+theorem concurrent_constructs_safe (fs0 : FS) (v0 sm0 clock0 : Nat) (fates1 fates2 : Nat → List Fate)
+    (hg : Good fs0) (sched : List SItem) :
+    ((runC (CState.initial fs0 v0 sm0 clock0 fates1 fates2) sched).fs .mod = fs0 .mod ∨
+      PathNew v0 (runC (CState.initial fs0 v0 sm0 clock0 fates1 fates2) sched).fs
+        (runC (CState.initial fs0 v0 sm0 clock0 fates1 fates2) sched).srcVer) ∧
+    Good (runC (CState.initial fs0 v0 sm0 clock0 fates1 fates2) sched).fs ∧
+    (∀ p c, ((runC (CState.initial fs0 v0 sm0 clock0 fates1 fates2) sched).procs p).phase = .done (some c) →
+      c.complete = true ∧ c.magic = magicNumber ∧ c.file = 0 ∧
+      (NewLike v0 (runC (CState.initial fs0 v0 sm0 clock0 fates1 fates2) sched).srcVer c ∨
+        ∃ t, fs0 .mod = some ⟨c, t⟩)) ∧
+    (∀ p, fates1 p = [] → fates2 p = [] →
+      ((runC (CState.initial fs0 v0 sm0 clock0 fates1 fates2) sched).procs p).phase ≠ .done none) := by
+  have hj := runC_J sched _ (initial_J fs0 v0 sm0 clock0 fates1 fates2 hg)
+  refine ⟨hj.path, ?_, ?_, ?_⟩
+  · intro f hf
+    rcases hj.path with hp | ⟨f', hf', hn⟩
+    · exact hg f (by rw [← hp]; exact hf)
+    · rw [hf] at hf'; cases hf'; exact hn.1
+  · intro p c hph
+    have := hj.ph p
+    rw [hph] at this
+    exact this c rfl
+  · intro p h1 h2 hph
+    have := runC_clean (init := fs0 .mod) (v0 := v0) p sched _ (initial_J fs0 v0 sm0 clock0 fates1 fates2 hg)
+      ⟨h1, h2⟩ trivial
+    rw [hph] at this
+    exact this rfl
+
+/-- When the source is not modified during the run (`stable`): every module served is generated from the
+current source, or is the initial module; and as soon as one construct has finished serving, the module on
+disk is a complete module generated from the **current** source - or it is still the initial module and that
+module is not due (not older than the source, current generator version, this template file: the reuse the
+property allows). -/
+theorem concurrent_constructs_converge (fs0 : FS) (v0 sm0 clock0 : Nat) (fates1 fates2 : Nat → List Fate)
+    (hg : Good fs0) (sched : List SItem) (hs : stable sched = true) :
+    (∀ p c, ((runC (CState.initial fs0 v0 sm0 clock0 fates1 fates2) sched).procs p).phase = .done (some c) →
+      c.src = v0 ∨ ∃ t, fs0 .mod = some ⟨c, t⟩) ∧
+    ((∃ p c, ((runC (CState.initial fs0 v0 sm0 clock0 fates1 fates2) sched).procs p).phase = .done (some c)) →
+      PathNew v0 (runC (CState.initial fs0 v0 sm0 clock0 fates1 fates2) sched).fs v0 ∨
+      ((runC (CState.initial fs0 v0 sm0 clock0 fates1 fates2) sched).fs .mod = fs0 .mod ∧
+        InitReusable (fs0 .mod) sm0)) := by
+  have hj := runC_J sched _ (initial_J fs0 v0 sm0 clock0 fates1 fates2 hg)
+  have hk := runC_K sched _ hs (initial_J fs0 v0 sm0 clock0 fates1 fates2 hg)
+    (initial_K fs0 v0 sm0 clock0 fates1 fates2)
+  refine ⟨?_, ?_⟩
+  · intro p c hph
+    have := hj.ph p
+    rw [hph] at this
+    rcases (this c rfl).2.2.2 with hn | hi
+    · left
+      have h1 := hn.2.2.2.1
+      have h2 := hn.2.2.2.2
+      rw [hk.ver] at h2
+      omega
+    · exact Or.inr hi
+  · rintro ⟨p, c, hph⟩
+    by_cases hp : PathNew v0 (runC (CState.initial fs0 v0 sm0 clock0 fates1 fates2) sched).fs v0
+    · exact Or.inl hp
+    · right
+      have := hk.ph p
+      rw [hph] at this
+      refine ⟨?_, this hp⟩
+      rcases hj.path with h | h
+      · exact h
+      · rw [hk.ver] at h; exact absurd h hp
+
+/-- three processes on an empty module directory, one of them raising in `close`; a schedule mixing their
+steps: both others serve the current source (the module written by process 1, stamp 2) and the path holds a complete
+module of it -/
+example :
+    let st := runC (CState.initial FS.empty 3 5 10 (fun q => if q = 2 then [.ok, .ok, .raise] else []) (fun _ => []))
+      ([0, 1, 2, 0, 1, 2, 2, 0, 1, 1, 2, 2, 2, 0, 0, 1, 1, 1, 0, 0, 0, 1, 1, 0, 0, 1, 2, 2, 0, 0, 0, 1, 1, 1].map .proc)
+    (st.procs 0).phase = .done (some ⟨3, magicNumber, true, 2, 1, 0⟩) ∧
+    (st.procs 1).phase = .done (some ⟨3, magicNumber, true, 2, 1, 0⟩) ∧
+    (st.procs 2).phase = .done none ∧
+    (st.fs .mod).map (·.content.src) = some 3 := by decide
+
+/-- Why `stable` is needed (a limit of the protocol, outside the property's "same source"): the source is
+modified (mtime 10) while process 0 - which has already read version 0 - is still writing; process 1
+publishes version 1; process 0 renames last.  Everybody has finished, the path holds a *complete* module
+of the **older** version whose mtime is not older than the source's: the staleness test of a later construct
+does not fire. -/
+theorem concurrent_constructs_need_stable_source :
+    let st := runC (CState.initial FS.empty 0 5 10 (fun _ => []) (fun _ => []))
+      ([.proc 0, .proc 0, .proc 0, .modify 10] ++ (List.replicate 10 (.proc 1)) ++ (List.replicate 7 (.proc 0)))
+    (st.procs 0).phase = .done (some ⟨0, magicNumber, true, 0, 1, 0⟩) ∧
+    (st.procs 1).phase = .done (some ⟨1, magicNumber, true, 2, 1, 0⟩) ∧
+    st.srcVer = 1 ∧ (st.fs .mod).map (·.content.src) = some 0 ∧ dueAt st.fs st.srcMtime = false := by decide
 
 /-! ## `util.verify_directory` -/
 
